@@ -151,6 +151,20 @@ TARGETS = [
      {'fragment': ('between', 'de_pds_fields', 'bit', 'message'),
       'params': [('message', ('dict', 'str', 'str')), ('bit_config', ('dict', 'str', 'cfg'))],
       'lean_name': '_dict_to_iso8583_carriers'}),
+    # the PUBLIC entry points dumps / loads: the optional arguments (None or empty = the default encoding / the packaged
+    # element table, which is a parameter of the translation) and the call of the worker, an external function
+    ('cardutil/iso8583.py', 'dumps', {}, 'bytes',
+     {'pkg_config': True,
+      'params': [('obj', ('dict', 'str', 'anyval')), ('encoding', ('opt', 'str')), ('iso_config', ('opt', ('dict', 'str', 'cfg'))),
+                 ('hex_bitmap', 'bool'), ('pkg_bit_config', ('dict', 'str', 'cfg'))],
+      'extern': {'_dict_to_iso8583': ([('message', ('dict', 'str', 'anyval')), ('bit_config', ('dict', 'str', 'cfg')),
+                                       ('encoding', 'str'), ('hex_bitmap', 'bool')], 'bytes', True)}}),
+    ('cardutil/iso8583.py', 'loads', {}, ('dict', 'str', 'pyval'),
+     {'pkg_config': True,
+      'params': [('b', 'bytes'), ('encoding', ('opt', 'str')), ('iso_config', ('opt', ('dict', 'str', 'cfg'))),
+                 ('hex_bitmap', 'bool'), ('pkg_bit_config', ('dict', 'str', 'cfg'))],
+      'extern': {'_iso8583_to_dict': ([('message', 'bytes'), ('bit_config', ('dict', 'str', 'cfg')),
+                                       ('encoding', 'str'), ('hex_bitmap', 'bool')], ('dict', 'str', 'pyval'), True)}}),
     # the typed conversion on ENCODE: a value of any type in (str, int, Decimal, datetime, bytes), the text (or the value
     # itself) out; `_get_date_from_string` (dateutil or the fallback parser) is a parameter
     ('cardutil/iso8583.py', '_pytype_to_string', {'field_data': 'anyval', 'bit_config': 'cfg'}, 'anyval',
@@ -437,6 +451,14 @@ class Translator:
         if isinstance(node, ast.Name):
             if node.id in env:
                 return env[node.id]
+            # a module-level constant NAME = '<literal text>' (assigned exactly once at module level, all capitals)
+            if node.id.isupper():
+                vals = [st.value for st in self.mod.body if isinstance(st, ast.Assign) and len(st.targets) == 1
+                        and isinstance(st.targets[0], ast.Name) and st.targets[0].id == node.id]
+                rebinds = [n for n in ast.walk(self.mod) if isinstance(n, ast.Name) and n.id == node.id
+                           and isinstance(n.ctx, ast.Store)]
+                if len(vals) == 1 and len(rebinds) == 1 and isinstance(vals[0], ast.Constant) and isinstance(vals[0].value, str):
+                    return self.expr(vals[0], env)
             raise Untranslatable(f'free name {node.id}')
         if isinstance(node, ast.Attribute) and isinstance(node.value, ast.Name):
             v = self.class_const(node.value.id, node.attr)
@@ -1757,6 +1779,27 @@ class Translator:
             same = s.test.left.value == s.test.comparators[0].value
             live = s.body if same == isinstance(s.test.ops[0], ast.Eq) else s.orelse
             return self.stmts(live + rest, env, ret, loop)
+        tnode = s.test if isinstance(s, ast.If) else None
+        neg = isinstance(tnode, ast.UnaryOp) and isinstance(tnode.op, ast.Not)
+        tname = tnode.operand if neg else tnode
+        if isinstance(s, ast.If) and isinstance(tname, ast.Name) and isinstance(env.get(tname.id, (None, None))[1], tuple) \
+                and env[tname.id][1][0] == 'opt' and (env[tname.id][1][1] == 'str' or is_dict(env[tname.id][1][1])):
+            # if not x: / if x: where x is None, or a text / a dictionary (an optional argument): None and the empty value
+            # are false; in the branch where x is true it IS a (non-empty) text / dictionary
+            def go_truthy():
+                x = tname.id
+                inner_t = env[x][1][1]
+                guard = getattr(self, 'catching', None)
+                env2 = dict(env)
+                env2[x] = (f'{x}_v', inner_t)
+                truthy_body, falsy_body = (s.orelse, s.body) if neg else (s.body, s.orelse)
+                t_code = self.stmts(truthy_body if self.terminates(truthy_body) else truthy_body + rest, env2, ret, loop)
+                self.catching = guard
+                f_code = self.stmts(falsy_body if self.terminates(falsy_body) else falsy_body + rest, env, ret, loop)
+                self.catching = guard
+                return (f'match {env[x][0]} with\n  | some {x}_v =>\n    if (List.isEmpty {x}_v) then\n    ({f_code})\n  else\n    ({t_code})\n'
+                        f'  | none =>\n    ({f_code})')
+            return self.wrap(go_truthy)
         if isinstance(s, ast.If) and isinstance(s.test, ast.Compare) and len(s.test.ops) == 1 \
                 and isinstance(s.test.ops[0], ast.Eq) and isinstance(s.test.left, ast.Name) \
                 and env.get(s.test.left.id, (None, None))[1] == ('opt', 'str'):
@@ -2157,6 +2200,15 @@ def translate_function(mod_ast, fdef, ptypes, ret, known, cls=None, opts=None):
                                                       args=[self.visit(node.args[0])], keywords=[]), node)
                 return self.generic_visit(node)
         body = [ast.fix_missing_locations(DumpsRw().visit(st)) for st in __import__('copy').deepcopy(list(body))]
+    if opts.get('pkg_config'):
+        class PkgRw(ast.NodeTransformer):
+            def visit_Subscript(self, node):
+                if isinstance(node.value, ast.Name) and node.value.id == 'config' and isinstance(node.slice, ast.Constant) \
+                        and node.slice.value == 'bit_config' and isinstance(node.ctx, ast.Load):
+                    # config['bit_config']: the packaged element table, a parameter of the translation
+                    return ast.copy_location(ast.Name(id='pkg_bit_config', ctx=ast.Load()), node)
+                return self.generic_visit(node)
+        body = [ast.fix_missing_locations(PkgRw().visit(st)) for st in __import__('copy').deepcopy(list(body))]
     if opts.get('cipher'):
         body, used = cipher_idiom(list(body))
         if not used:
